@@ -106,7 +106,7 @@ package origins
 //@   pure
 //@   allocs <= 0
 //@   requires n != nil && NodeInv(n) && 0 <= port && port <= 65536
-//@   ensures C01.node_membership: found == NodeHas(n, scheme, port, wildcardSubs)
+//@   ensures C01.node_membership: result == NodeHas(n, scheme, port, wildcardSubs)
 
 //@ func Parse
 //@   props C01 C13 C17 C18
@@ -217,8 +217,8 @@ package origins
 //@   props C04 C05 C13 C17
 //@   pure
 //@   allocs <= 0
-//@   ensures (len(str) >= 1 && str[0] == '*') ==> ok && port == 65536 && rest === str[1:]
-//@   ensures !(len(str) >= 1 && str[0] == '*') ==> port == parsePort$0(str) && rest === parsePort$1(str) && ok == parsePort$2(str)
+//@   ensures (len(str) >= 1 && str[0] == '*') ==> result2 && result0 == 65536 && result1 === str[1:]
+//@   ensures !(len(str) >= 1 && str[0] == '*') ==> result0 == parsePort$0(str) && result1 === parsePort$1(str) && result2 == parsePort$2(str)
 
 //@ func HostPattern.IsIP
 //@   props C04 C05 C13 C17
